@@ -19,6 +19,7 @@ CONSTANTS Users,               \* user names the client may try
           GssHonoursCallback,  \* FALSE = pinned tree: both GSS branches hard-wire AUTH_SUCCESSFUL
           BlobOmits,           \* "" | "sid" | "user" | "service" | "alg" | "key": field left out of the signed blob
           KeepsResultAfterBadSig,  \* TRUE = a failed verify_ssh_sig does not reset result
+          PkOkCachesApproval,     \* TRUE = a signed request for the key just answered with PK_OK is not put to the application again
           RekeyResetsAuthState,   \* TRUE = a key re-exchange before authentication installs a fresh AuthHandler
           KeepsResultOnForeignLabel,  \* TRUE = a signature blob labelled with another algorithm than the request's keeps result
           ProbeAuthenticates,  \* TRUE = a PK_OK probe marks the session authenticated
@@ -109,12 +110,13 @@ VARIABLES cfg,           \* [gss: enable_auth_gssapi(), ctx: Transport.kexgss_ct
           alive,         \* Transport.active
           mode,          \* "plain" | "gss": which object is Transport.auth_handler
           expect,        \* Transport._expected_packet: "any" | "tok" (61,50,5) | "tokmic" (61,66,50)
+          offer,         \* the last publickey request on this connection was a probe answered with USERAUTH_PK_OK
           req,           \* the message handled by the last step
           cbs,           \* credential callbacks evaluated by the last step: Seq [name, user, res]
           out,           \* replies sent by the last step, in order
           grantedBy,     \* why the session counts as authenticated
           failed         \* number of USERAUTH_FAILURE (partial = false) replies sent so far
-vars == <<cfg, authUser, failCount, authenticated, alive, mode, expect, req, cbs, out, grantedBy, failed>>
+vars == <<cfg, authUser, failCount, authenticated, alive, mode, expect, offer, req, cbs, out, grantedBy, failed>>
 
 Range(s) == {s[i] : i \in 1..Len(s)}
 Nobody == [user |-> "", method |-> "", cb |-> "none", proof |-> FALSE]
@@ -125,13 +127,13 @@ CfgOf(n) == [gss |-> n # "plain", ctx |-> n \in {"gss+ctx", "gss+ctx+bound"}, bo
 
 Init == /\ cfg \in {CfgOf(n) : n \in ConfigSel}
         /\ authUser = "" /\ failCount = 0 /\ authenticated = FALSE /\ alive = TRUE
-        /\ mode = "plain" /\ expect = "any" /\ req = Blank /\ cbs = <<>> /\ out = <<>>
+        /\ mode = "plain" /\ expect = "any" /\ offer = FALSE /\ req = Blank /\ cbs = <<>> /\ out = <<>>
         /\ grantedBy = Nobody /\ failed = 0
 
 \* ------------------------------------------------------------------ the server's step function
 \* control state handed from one handler to the next
 Ctl == [authUser |-> authUser, failCount |-> failCount, authenticated |-> authenticated, alive |-> alive,
-        mode |-> mode, expect |-> expect]
+        mode |-> mode, expect |-> expect, offer |-> offer]
 Ans(s, c, o) == [st |-> s, cbs |-> c, out |-> o]
 Quiet(s) == Ans(s, <<>>, <<>>)
 Die(s, c, o) == Ans([s EXCEPT !.alive = FALSE, !.authenticated = FALSE], c, o)   \* is_authenticated() = active /\ ...
@@ -165,12 +167,17 @@ UserauthRequest(c, s, q) ==
                 IF q.change THEN SendResult(s1, <<>>, "fail")                 \* password change: rejected without asking
                 ELSE SendResult(s1, <<Cb("password", q.user, q.cb)>>, q.cb)
            [] m = "publickey" ->
-                LET c1 == <<Cb("publickey", q.user, q.cb)>> IN
-                IF q.cb = "fail" THEN SendResult(s1, c1, "fail")
+                \* the application is asked about the key on EVERY publickey request, probe or signed: the answer it
+                \* gave to a probe (which may have been "partial", or may have changed since) approves nothing later
+                LET cached == PkOkCachesApproval /\ s.offer /\ q.sig # "absent"
+                    res == IF cached THEN "ok" ELSE q.cb
+                    c1  == IF cached THEN <<>> ELSE <<Cb("publickey", q.user, q.cb)>>
+                    s2  == [s1 EXCEPT !.offer = FALSE] IN
+                IF res = "fail" THEN SendResult(s2, c1, "fail")
                 ELSE IF q.sig = "absent"
-                  THEN Ans([s1 EXCEPT !.authenticated = ProbeAuthenticates], c1, <<"PK_OK">>)
-                ELSE IF CodeVerifies(q) \/ KeepsResultAfterBadSig THEN SendResult(s1, c1, q.cb)
-                ELSE SendResult(s1, c1, "fail")
+                  THEN Ans([s2 EXCEPT !.authenticated = ProbeAuthenticates, !.offer = TRUE], c1, <<"PK_OK">>)
+                ELSE IF CodeVerifies(q) \/ KeepsResultAfterBadSig THEN SendResult(s2, c1, res)
+                ELSE SendResult(s2, c1, "fail")
            [] m = "keyboard-interactive" ->
                 LET c1 == <<Cb("keyboard-interactive", q.user, q.cb)>> IN
                 IF q.cb = "query" THEN Ans(s1, c1, <<"INFO_REQUEST">>) ELSE SendResult(s1, c1, q.cb)
@@ -246,7 +253,7 @@ Step(q) ==
     /\ failed' = failed + NFail(a.out)
     /\ req' = q /\ cfg' = cfg
     /\ authUser' = a.st.authUser /\ failCount' = a.st.failCount /\ authenticated' = a.st.authenticated
-    /\ alive' = a.st.alive /\ mode' = a.st.mode /\ expect' = a.st.expect
+    /\ alive' = a.st.alive /\ mode' = a.st.mode /\ expect' = a.st.expect /\ offer' = a.st.offer
     /\ cbs' = a.cbs /\ out' = a.out
     /\ grantedBy' = IF Granted(authenticated, a.st.authenticated, a.out)
                       THEN Grant(cfg, q, authUser, mode, a.cbs) ELSE grantedBy
@@ -267,7 +274,7 @@ Bound == TLCGet("level") <= MaxDepth          \* CONSTRAINT; the .cfg files are 
 (* evaluates step properties ([][A]_vars) on EVERY transition it generates, also those into a state  *)
 (* it has already seen - so everything that mentions req / cbs / out is a step property over the     *)
 (* primed label, and the state invariants mention control variables only.                            *)
-Control == <<cfg, authUser, failCount, authenticated, alive, mode, expect, grantedBy, failed>>
+Control == <<cfg, authUser, failCount, authenticated, alive, mode, expect, offer, grantedBy, failed>>
 
 \* C14
 GrantNeedsApproval == authenticated => (grantedBy # Nobody /\ grantedBy.cb = "ok" /\ grantedBy.proof)
